@@ -28,11 +28,13 @@ Ors(e)     == IF Syntax(e).ors = <<>> THEN {}
                             lo \in Lower(e), hi \in Upper(e), hi2 \in Upper(e), pt \in Point(e)}
 Structures(e) == (IF Syntax(e).min <= 1 THEN Singles(e) ELSE {}) \cup Pairs(e) \cup Triples(e) \cup Ors(e)
 
+\* ecosystems whose documentation gives a blank and a comma as interchangeable AND separators: both may occur in one group
+MixedSeps(e) == e \in {"conan"}
 RInit(E) == reco \in E /\ rgroups = <<>> /\ rsep = 0 /\ rorsep = 0 /\ rdone = FALSE
 \* one step chooses a whole structure and its separators (the structure catalogue is the alphabet)
 RNext == /\ ~rdone
          /\ \E st \in Structures(reco) :
-              \E s \in 1..Len(Syntax(reco).ands) :
+              \E s \in 1..(Len(Syntax(reco).ands) + (IF MixedSeps(reco) /\ (\E g \in 1..Len(st) : Len(st[g]) >= 3) THEN 2 ELSE 0)) :
                 \E os \in (IF Len(st) > 1 THEN 1..Len(Syntax(reco).ors) ELSE {0}) :
                    /\ (Len(st) = 1 /\ Len(st[1]) = 1 => s = 1)        \* separators irrelevant for singles
                    /\ rgroups' = st /\ rsep' = s /\ rorsep' = os
@@ -44,7 +46,12 @@ JoinStr(q, sep) == IF q = <<>> THEN "" ELSE IF Len(q) = 1 THEN q[1] ELSE q[1] \o
 RText(e, groups, s, os, bt) ==
   LET syn == Syntax(e)
       ctext(c) == syn.ops[c[1]].t \o bt[c[2]]
-      gtext(g) == JoinStr([i \in 1..Len(g) |-> ctext(g[i])], syn.ands[s]) IN
+      n == Len(syn.ands)
+      \* s <= n: one separator throughout; s = n + 1, n + 2: the separators alternate, starting with the first / second
+      sepAt(k) == IF s <= n THEN syn.ands[s] ELSE syn.ands[((s - n - 1 + k - 1) % n) + 1]
+      RECURSIVE JoinMixed(_, _)
+      JoinMixed(q, k) == IF Len(q) = 1 THEN q[1] ELSE q[1] \o sepAt(k) \o JoinMixed(Tail(q), k + 1)
+      gtext(g) == JoinMixed([i \in 1..Len(g) |-> ctext(g[i])], 1) IN
   JoinStr([i \in 1..Len(groups) |-> gtext(groups[i])], IF os = 0 THEN "" ELSE syn.ors[os])
 RAbstract(e, groups) ==
   [g \in 1..Len(groups) |-> [c \in 1..Len(groups[g]) |-> [op |-> Syntax(e).ops[groups[g][c][1]].m, b |-> groups[g][c][2]]]]
